@@ -22,7 +22,8 @@ This is how the correspondence run drives the real service. Interleavings inside
 operation are not modelled.
 
 The hand-off channel `in` is never full (the property excludes that documented drop).
-Retries are unbounded (`transmitMaxRetries` unset), as in the property.
+Retries are unbounded by default; with a finite `transmitMaxRetries` an outage that is still
+there at the quiescent point has outlasted the limit: the event is dropped (`dropped`).
 
 The streamer re-creates `pending` WITHOUT the index after every commit that sent a group,
 so in a multi-statement request without a transaction only the first group carries the
@@ -112,6 +113,11 @@ structure St where
   loopback : Bool := false
   /-- successful POSTs in order: (FIFO key, groups) -/
   delivered : List (Nat × Batch) := []
+  /-- `transmitMaxRetries`: 0 = retry forever (the default), n > 0 = give up on an event
+  after n failed attempts -/
+  maxRetries : Nat := 0
+  /-- events given up on after exhausting a finite retry limit ("dropped_failed_to_send") -/
+  dropped : List (Nat × Batch) := []
   /-- broadcasts made by this node -/
   broadcasts : List Nat := []
   /-- raft: entries applied so far, and the index covered by the last snapshot -/
@@ -155,6 +161,9 @@ def pump : Nat → St → St
     | some (k, b) =>
       if k ≤ s.hwm then pump fuel { s with held := none }   -- HWM has passed it meanwhile: skipped
       else if s.up then pump fuel { s with held := none, delivered := s.delivered ++ [(k, b)], hwm := k }
+      else if s.maxRetries ≠ 0 then
+        -- the outage outlasts the finite retry limit: the event is dropped, the HWM stays
+        pump fuel { s with held := none, dropped := s.dropped ++ [(k, b)] }
       else s
     | none =>
       match consume s.fifo with
@@ -229,9 +238,9 @@ def run (s : St) : List Op → St
   | op :: rest => run (stepOp s op) rest
 
 /-! ### line protocol
-`reset <batchSz> <loopback 0|1>` → `ok`
+`reset <batchSz> <loopback 0|1> [maxRetries]` → `ok`
 `entry <idx> <tx 0|1> <n,n,...|->` | `timer` | `sync` | `leader 0|1` | `endpoint 0|1` |
-`hwm <n>` | `tick` | `restart`      (prefix `T ` = the op is followed by a `tick`, one result line)
+`hwm <n>` | `tick` | `restart`      (`stream <idx> <tx> <n,n,..>` → the streamer's groups only; prefix `T ` = the op is followed by a `tick`, one result line)
   → `hwm=<n> len=<n> first=<k> highest=<k> next=<b> batcher=<n> held=<k|-> new=<deliveries>`
 deliveries since the previous line: `key:idx/e.j+e.j,idx/...;key:...` or `-`
 -/
@@ -239,6 +248,7 @@ deliveries since the previous line: `key:idx/e.j+e.j,idx/...;key:...` or `-`
 structure DState where
   s : St := {}
   seen : Nat := 0
+  seenDrop : Nat := 0
 
 def chgStr (c : Change) : String := s!"{c.1}.{c.2}"
 def groupStr (g : Group) : String := s!"{g.idx}/{joinWith "+" (g.chg.map chgStr)}"
@@ -251,8 +261,10 @@ def obs (d : DState) (s : St) : DState × String :=
     | some (k, _) => if s.leader && !s.up then toString k else "-"
     | none => "-"
   let nd := if newD.isEmpty then "-" else joinWith ";" (newD.map delivStr)
-  ({ s := s, seen := s.delivered.length },
-   s!"hwm={s.hwm} len={s.fifo.items.length} first={firstKey s.fifo} highest={s.fifo.highest} next={boolStr s.fifo.nextEv.isSome} batcher={s.batcher.length} held={held} new={nd}")
+  let newDrop := s.dropped.drop d.seenDrop
+  let dr := if newDrop.isEmpty then "" else s!" drop={joinWith "," (newDrop.map fun x => toString x.1)}"
+  ({ s := s, seen := s.delivered.length, seenDrop := s.dropped.length },
+   s!"hwm={s.hwm} len={s.fifo.items.length} first={firstKey s.fifo} highest={s.fifo.highest} next={boolStr s.fifo.nextEv.isSome} batcher={s.batcher.length} held={held} new={nd}{dr}")
 
 def bitTok (t : String) : Option Bool :=
   if t == "1" then some true else if t == "0" then some false else none
@@ -273,14 +285,27 @@ def parseOp : List String → Option Op
 
 def step (d : DState) (line : String) : DState × String :=
   match words line with
+  | ["stream", k, tx, st] =>
+    -- the streamer alone: the groups one applied entry hands to the service
+    match k.toNat?, bitTok tx, natList st with
+    | some k, some tx, some st =>
+      let gs := streamEntry ⟨k, tx, st⟩
+      (d, if gs.isEmpty then "-" else joinWith "," (gs.map groupStr))
+    | _, _, _ => (d, "bad-op")
   | "T" :: rest =>
     match parseOp rest with
     | some op => obs d (stepOp (stepOp d.s op) .tick)
     | none => (d, "bad-op")
   | ["reset", b, lb] =>
     match b.toNat?, bitTok lb with
-    | some b, some lb => if b = 0 then (d, "bad-op") else ({ s := { batchSz := b, loopback := lb }, seen := 0 }, "ok")
+    | some b, some lb => if b = 0 then (d, "bad-op") else ({ s := { batchSz := b, loopback := lb }, seen := 0, seenDrop := 0 }, "ok")
     | _, _ => (d, "bad-op")
+  | ["reset", b, lb, mr] =>
+    match b.toNat?, bitTok lb, mr.toNat? with
+    | some b, some lb, some mr =>
+      if b = 0 then (d, "bad-op")
+      else ({ s := { batchSz := b, loopback := lb, maxRetries := mr }, seen := 0, seenDrop := 0 }, "ok")
+    | _, _, _ => (d, "bad-op")
   | ws =>
     match parseOp ws with
     | some op => obs d (stepOp d.s op)
